@@ -225,6 +225,35 @@ def small_exhaustive(limit=None):
     return out[:limit] if limit else out
 
 
+def pad_family():
+    """Deterministic family (quick and thorough): a section with buffer b and virtual size v > b at a NON-ZERO offset; every
+    destination size from offset+b-1 to offset+v+1 with all four flag combinations for copy_flattened_data, and every size from
+    b-1 to v+1 for copy_section_data: the region where padding has to be clipped to the destination (an unclipped or
+    wrongly based memset writes behind the destination exactly here)."""
+    out = []
+    for t in (1, 16):
+        for b in (0, 1, 5):
+            for dv in (1, 8, 40):
+                for tail in (False, True):
+                    v = b + dv
+                    ops = ["init", "data 0 %s" % ("90" * t), "sec pad 16 0"]
+                    if b:
+                        ops.append("data 1 %s" % ("cc" * b))
+                    ops.append("vsize 1 %x" % v)
+                    if tail:
+                        ops += ["sec tail 1 1", "data 2 c3"]
+                    ops.append("flatten")
+                    off = 16
+                    for n in range(max(0, off + b - 1), off + v + 2):
+                        for f in range(4):
+                            ops.append("copy %d %d" % (n, f))
+                    for n in range(max(0, b - 1), v + 2):
+                        for f in range(4):
+                            ops.append("copysec 1 %d %d" % (n, f))
+                    out.append(ops)
+    return out
+
+
 def kind_ops(sid, k):
     ops = []
     for i in range(0, len(k) - 1, 2):
@@ -339,6 +368,34 @@ def shrink(harness, cfg, cls):
     return ["init"] + small
 
 
+def run_part(harness, part):
+    """Runs one chunk of configurations. A harness abort never hides the rest: the aborting configuration is located
+    (vlib.locate_abort, confirmed alone), recorded, removed, and the chunk is run again.
+    Returns (configs evaluated, (results, lines, spans) or None, [(config, (rc, stderr))], unresolved crash or None)."""
+    cur, crashes = list(part), []
+    for _ in range(6):
+        r, lines, spans, crash = run_cfgs(harness, cur)
+        if not crash:
+            return cur, (r, lines, spans), crashes, None
+        found = None
+        try:
+            idx, _err = vlib.locate_abort([str(harness)], lines)
+            ci = next((k for k, (a, b) in enumerate(spans) if a <= idx < b), None)
+            cands = ([cur[ci]] if ci is not None else []) + cur
+        except Exception:
+            cands = cur
+        for c in cands:
+            v, cr = monitor_verdicts(harness, c)
+            if v == "crash":
+                found = (c, cr)
+                break
+        if not found:
+            return cur, None, crashes, (crash, lines)
+        crashes.append(found)
+        cur = [c for c in cur if c is not found[0]]
+    return cur, None, crashes, (crash, lines)
+
+
 def chunks(seq, n):
     k = max(1, (len(seq) + n - 1) // n)
     return [seq[i:i + k] for i in range(0, len(seq), k)]
@@ -368,25 +425,22 @@ def run(res):
     h = vlib.build_harness("c10")
 
     ncfg = 1500 if res.tier == "quick" else 25000
-    cfgs = [WITNESS_17, WITNESS_CS, WITNESS_NAME, WITNESS_JIT0] + small_exhaustive(None if res.tier == "thorough" else 120) + [gen_config(rng) for _ in range(ncfg)]
+    cfgs = [WITNESS_17, WITNESS_CS, WITNESS_NAME, WITNESS_JIT0] + pad_family() + small_exhaustive(None if res.tier == "thorough" else 120) + [gen_config(rng) for _ in range(ncfg)]
     with ThreadPoolExecutor(4) as ex:
         cfgs = [c for part in ex.map(lambda p: expand_all(p, h), chunks(cfgs, 4)) for c in part]
 
     parts = chunks(cfgs, 4 if res.tier == "quick" else 8)
     with ThreadPoolExecutor(4) as ex:
-        results = list(ex.map(lambda p: run_cfgs(h, p), parts))
+        results = list(ex.map(lambda p: run_part(h, p), parts))
 
     kinds, evals, nontriv, samples = {}, 0, set(), []
-    bad, diffs, crashes = [], [], []
-    for part, (r, lines, spans, crash) in zip(parts, results):
-        if crash:
-            # find the crashing configuration(s)
-            for c in part:
-                v, cr = monitor_verdicts(h, c)
-                if v == "crash":
-                    crashes.append((c, cr))
-                    break
+    bad, diffs, crashes, unresolved = [], [], [], []
+    for part0, (part, rr, pcrashes, unres) in zip(parts, results):
+        crashes += pcrashes
+        if unres:
+            unresolved.append(unres)
             continue
+        r, lines, spans = rr
         impl, model, mon = r
         evals += len(lines)
         for ci, (a, b) in enumerate(spans):
@@ -417,7 +471,8 @@ def run(res):
                             "{INT_MIN,-1,0,1,INT_MAX, equal runs, random}, empty/code/virtual-only/both, virtual sizes near 2^62..2^64, with/without "
                             ".addrtab via call/jmp abs), flatten (also twice, also after growth), copies at code_size+{-9..9}, at every section boundary "
                             "+-1, at 0 and small sizes with all four flag combinations, copy_section_data, one relocation, JitRuntime::add; plus an "
-                            "exhaustive menu of 3-section tables; non-trivial = distinct (op, accepted answer, state before) of flatten/copy/copysec/reloc/jitadd")
+                            "exhaustive menu of 3-section tables and the deterministic padding family (36 tables x every destination size from "
+                            "offset+buffer-1 to offset+virtual+1 x 4 flag sets, for copy_flattened_data and copy_section_data); non-trivial = distinct (op, accepted answer, state before) of flatten/copy/copysec/reloc/jitadd")
     res.coverage["exhaustive"] = False
     res.coverage["input_distribution"] = dict(sorted(kinds.items()))
     res.coverage["configurations"] = len(cfgs)
@@ -441,14 +496,23 @@ def run(res):
                       {"ops": with_states(small), "trace": trace, "monitor": verdict,
                        "how": "python3 tools/check.py replay <this file>  (harness .build/<tree>/asan/h_c10_*, judged by `vdriver C10` mon lines)"},
                       True, key="mon:" + cls)
-    if not bad and not crashes and diffs:
-        c, line, a, b = diffs[0]
-        res.violation("correspondence model/implementation differs at %r: impl=%s model=%s (%d differing answers); the property monitors hold on "
-                      "every explored answer" % (line, a[:300], b[:300], len(diffs)),
+    for (rc_err, ulines) in unresolved[:1]:
+        res.violation("harness aborted (rc=%s) and the abort could not be attributed to a single configuration; %d op lines of that chunk "
+                      "were not evaluated: %s" % (rc_err[0], len(ulines), rc_err[1][-800:]), {"ops": ulines[:400], "stderr": rc_err[1][-3000:]},
+                      True, key="harness-abort")
+    # a correspondence difference is reported unless a monitor violation of the SAME configuration already explains it
+    bad_cfgs = {id(b[0]) for b in bad}
+    open_diffs = [d for d in diffs if id(d[0]) not in bad_cfgs]
+    if open_diffs:
+        c, line, a, b = open_diffs[0]
+        res.violation("correspondence model/implementation differs at %r: impl=%s model=%s (%d differing answers in configurations where the "
+                      "property monitors hold)" % (line, a[:300], b[:300], len(open_diffs)),
                       {"ops": with_states(c), "impl": a, "model": b, "unchecked": "correspondence Model/Sections.lean ~ codeholder.cpp"},
                       False, key="corr")
-    elif not bad and not crashes and broken:
+    if broken:
         res.violation("proof obligation no longer checks: " + " | ".join(broken)[:1500], {"unchecked": broken}, False, key="obligation")
+    if evals == 0 and not res.violations:
+        res.violation("empty run: no operation line was executed", {"configurations": len(cfgs)}, False, key="empty")
 
 
 # witnesses of the defects found with this check (kept as regression inputs; see notes/C10.md)
